@@ -344,7 +344,7 @@ func runC13(c *Ctx) {
 				region = func(o otype) bool { return o.rm < o.r0 }
 			case strings.HasSuffix(name, "ErrConvertedIntervalZero"):
 				region = func(o otype) bool { return o.rm == o.r0 && o.rv == o.r0 }
-			case strings.Contains(name, "recalculateQuantity") || strings.HasSuffix(name, "ErrConvertedQuantityUnrepresentable"):
+			case p.onlyErrorOf(errV, "ErrConvertedQuantityUnrepresentable") || strings.HasSuffix(name, "ErrConvertedQuantityUnrepresentable"):
 				region = func(o otype) bool { return o.I == 'p' && o.Q == 'p' && o.rm > o.r0 }
 			default:
 				known = false
@@ -524,13 +524,30 @@ func isQuantityFloor(p *Prog, qS *Sym, recv, minPar *ssa.Parameter) bool {
 			return false
 		}
 		leaf := func(x *Sym) string {
-			if x.Op == "call" && (strings.HasSuffix(x.Name, "big.Int).SetUint64") || strings.HasSuffix(x.Name, "big.Int).SetInt64")) && len(x.Args) == 2 {
-				a := deepStrip(x.Args[1])
-				if a.Op == "param" {
-					return role[a.Name]
+			// SetUint64(_, A) | SetInt64(_, int64(B)) | big.NewInt(int64(B)); an unsigned operand
+			// must be converted with SetUint64 (through int64 it would go negative above 2^63-1)
+			var arg *Sym
+			unsignedConv := false
+			switch {
+			case x.Op == "call" && strings.HasSuffix(x.Name, "big.Int).SetUint64") && len(x.Args) == 2:
+				arg, unsignedConv = x.Args[1], true
+			case x.Op == "call" && strings.HasSuffix(x.Name, "big.Int).SetInt64") && len(x.Args) == 2:
+				arg = x.Args[1]
+			case x.Op == "call" && x.Name == "math/big.NewInt" && len(x.Args) == 1:
+				arg = x.Args[0]
+			default:
+				return "?"
+			}
+			a := deepStrip(arg)
+			if a.Op != "param" {
+				return "?"
+			}
+			if par, ok := a.V.(*ssa.Parameter); ok {
+				if b, isB := par.Type().Underlying().(*types.Basic); isB && b.Info()&types.IsUnsigned != 0 && !unsignedConv {
+					return "?"
 				}
 			}
-			return "?"
+			return role[a.Name]
 		}
 		f1, f2, dn := leaf(mul.Args[1]), leaf(mul.Args[2]), leaf(den)
 		okMul := (f1 == "Quantity" && f2 == "m") || (f1 == "m" && f2 == "Quantity")
@@ -540,4 +557,37 @@ func isQuantityFloor(p *Prog, qS *Sym, recv, minPar *ssa.Parameter) bool {
 		// the non-representable case must be an error, checked before Uint64()
 	}
 	return true
+}
+
+// onlyErrorOf: v is the error result of a call of a private product function every non-nil
+// error result of which is the package-level error variable named want (the helper that
+// recalculates the quantity, whatever it is called).
+func (p *Prog) onlyErrorOf(v ssa.Value, want string) bool {
+	ex, ok := v.(*ssa.Extract)
+	if !ok {
+		return false
+	}
+	call, ok := ex.Tuple.(*ssa.Call)
+	if !ok {
+		return false
+	}
+	fn := p.Callee(call)
+	if fn == nil || !p.IsProduct(fn) {
+		return false
+	}
+	if obj, _ := fn.Object().(*types.Func); obj != nil && obj.Exported() {
+		return false
+	}
+	n := 0
+	for _, s := range p.resultSyms(fn, ex.Index) {
+		if s.Op == "const" && s.Name == "nil" {
+			continue
+		}
+		if s.Op == "global" && strings.HasSuffix(s.Name, "."+want) {
+			n++
+			continue
+		}
+		return false
+	}
+	return n > 0
 }
